@@ -150,7 +150,37 @@ func Load(opt Options) (*Loaded, error) {
 	}
 	sort.Slice(pkgs, func(i, j int) bool { return pkgs[i].PkgPath < pkgs[j].PkgPath })
 
-	prog, _ := ssautil.AllPackages(pkgs, ssa.InstantiateGenerics)
+	var prog *ssa.Program
+	if opt.Full {
+		prog, _ = ssautil.AllPackages(pkgs, ssa.InstantiateGenerics)
+	} else {
+		// bodies for the root packages only; every transitively imported package is created from its
+		// type information (the way go/analysis' buildssa does), so that an overlay which forces
+		// go/packages to parse dependencies without type info cannot reach the SSA builder
+		prog = ssa.NewProgram(fset, ssa.InstantiateGenerics)
+		isRoot := map[*types.Package]bool{}
+		for _, p := range pkgs {
+			isRoot[p.Types] = true
+		}
+		created := map[*types.Package]bool{}
+		var createAll func(ps []*types.Package)
+		createAll = func(ps []*types.Package) {
+			for _, tp := range ps {
+				if created[tp] || isRoot[tp] {
+					continue
+				}
+				created[tp] = true
+				prog.CreatePackage(tp, nil, nil, true)
+				createAll(tp.Imports())
+			}
+		}
+		for _, p := range pkgs {
+			createAll(p.Types.Imports())
+		}
+		for _, p := range pkgs {
+			prog.CreatePackage(p.Types, p.Syntax, p.TypesInfo, false)
+		}
+	}
 	prog.Build()
 
 	l := &Loaded{Opt: opt, Fset: fset, Roots: pkgs, All: all, Prog: prog, NPkgs: len(all)}
